@@ -13,7 +13,7 @@
     XML sources, query parameters, XPath evaluation, SetValue, insert/update/replace; outside every model:
     encoding/json, patch/xml, net/url, strconv, regexp, the goyacc driver. *)
 From Coq Require Import ZArith List Bool Arith Strings.Byte.
-From YV Require Import Base.Verdict Val.Model Req.Types Req.Match Req.MatchProofs Req.UrlPath Req.UrlPathProofs
+From YV Require Import Base.Verdict Val.Model Req.Types Req.Match Req.MatchProofs Req.UrlPath Req.UrlPathProofs Req.KeyCountProofs
   Req.JsonR Req.JsonRProofs Req.XPathLex Req.XPathLexProofs Check.C13Check Req.CheckProofs.
 Import ListNotations.
 
@@ -34,6 +34,65 @@ Theorem C13_key_on_nonlist_is_error : forall modname r cur seg a b tgt,
   exists n g c k kids, tgt = NSk (SkList n g c k kids).
 Proof. exact keyed_segment_resolves_to_list. Qed.
 Print Assumptions C13_key_on_nonlist_is_error.
+
+(** a list segment "name=v1,..,vm" only proceeds to a list with at most m keys (node/path_slice.go after 110eb81) *)
+Theorem C13_keyed_step_has_enough_keys : forall modname r cur seg m tgt,
+  seg_key_count seg = Some m ->
+  step false modname r cur seg = SNext tgt ->
+  exists k, list_key_count tgt = Some k /\ (k <= m)%nat.
+Proof. exact keyed_step_has_enough_keys. Qed.
+Print Assumptions C13_keyed_step_has_enough_keys.
+
+(** fewer key values than the list has keys: an error wherever the segment stands in the path, whatever the values
+    are and whatever follows - never the hand-over of nil key values to the node *)
+Theorem C13_too_few_keys_is_error : forall modname r cur seg a b id n g c kpos kids tl,
+  cut_first x3d seg = Some (a, b) ->
+  unescape a = Some id ->
+  (forall s, cur = NSk s -> find_seg r modname s id = Some (NSk (SkList n g c kpos kids))) ->
+  (length (split_on x2c b) < length kpos)%nat ->
+  walk false modname r cur (seg :: tl) = MErr.
+Proof. exact walk_too_few_keys_is_error. Qed.
+Print Assumptions C13_too_few_keys_is_error.
+
+Theorem C13_find_too_few_keys_is_error : forall w seg a b id n g c kpos kids,
+  existsb (Byte.eqb x2f) seg = false ->
+  existsb (Byte.eqb x3f) seg = false ->
+  cut_first x3d seg = Some (a, b) ->
+  unescape a = Some id ->
+  find_seg true (w_module w) (w_root w) id = Some (NSk (SkList n g c kpos kids)) ->
+  (length (split_on x2c b) < length kpos)%nat ->
+  find_path false w seg = MErr.
+Proof. exact find_too_few_keys_is_error. Qed.
+Print Assumptions C13_find_too_few_keys_is_error.
+
+Example C13_find_too_few_keys_sat :
+  exists seg a b id n g c kpos kids,
+    existsb (Byte.eqb x2f) seg = false /\ existsb (Byte.eqb x3f) seg = false /\
+    cut_first x3d seg = Some (a, b) /\ unescape a = Some id /\
+    find_seg true (w_module keys_world) (w_root keys_world) id = Some (NSk (SkList n g c kpos kids)) /\
+    (length (split_on x2c b) < length kpos)%nat.
+Proof. exact find_too_few_keys_sat. Qed.
+Print Assumptions C13_find_too_few_keys_sat.
+
+(** whatever follows a segment that resolved to a node without definitions - leaf, leaf-list, choice, and (as
+    SkLeaf entries of the skeleton) anydata, anyxml, rpc, action - is an error *)
+Theorem C13_walk_below_terminal_is_error : forall modname r cur seg tgt seg2 tl,
+  seg <> [] -> seg2 <> [] ->
+  step false modname r cur seg = SNext tgt -> terminal tgt ->
+  walk false modname r cur (seg :: seg2 :: tl) = MErr.
+Proof. exact walk_below_terminal_is_error. Qed.
+Print Assumptions C13_walk_below_terminal_is_error.
+
+Example C13_keys_demo :
+  find_path false keys_world [x6c;x32;x3d;x31] = MErr /\
+  find_path false keys_world [x6c;x32;x3d;x31;x2c;x78] = MOkOrErr /\
+  find_path false keys_world [x6c;x32;x3d;x31;x2c;x78;x2c;x79] = MOkOrErr /\
+  find_path false keys_world [x6c;x32;x3d;x31;x2f;x76] = MErr /\
+  find_path false keys_world [x61;x6e;x79;x2f;x78;x2f;x79] = MErr /\
+  find_path false keys_world [x6c;x32;x3d;x31;x2c;x78;x2f;x76] = MOkOrErr /\
+  find_path true keys_world [x6c;x32;x3d;x31] = MOkOrErr.
+Proof. exact keys_demo. Qed.
+Print Assumptions C13_keys_demo.
 
 (** Find on a selection below the root: any number of leading "../" steps, any "?query" part *)
 Theorem C13_find_rel_total : forall w names row path, is_panic (find_rel false w names row path) = false.
